@@ -295,7 +295,7 @@ fn gen_wts(rng: &mut Rng) -> Value {
 }
 
 fn gen_cases(rng: &mut Rng, tier: Tier) -> Vec<Value> {
-    let scale = if tier == Tier::Thorough { 20 } else { 1 };
+    let scale = if tier == Tier::Thorough { 12 } else { 1 };
     let mut cases = vec![];
     // hand-written shapes first: with a tiny spread factor the map does not grow, so the initial 2x2 / 3x2 / 3x3 / 4x4
     // grids (4, 5, 9, 16 initial nodes for 4, 41, 90, 160 inputs) reach the contraction as they are
@@ -310,16 +310,16 @@ fn gen_cases(rng: &mut Rng, tier: Tier) -> Vec<Value> {
             }));
         }
     }
-    for _ in 0..(400 * scale) {
+    for _ in 0..(1000 * scale) {
         cases.push(gen_off(rng));
     }
-    for _ in 0..(300 * scale) {
+    for _ in 0..(700 * scale) {
         cases.push(gen_net(rng, tier == Tier::Thorough));
     }
-    for _ in 0..(150 * scale) {
+    for _ in 0..(300 * scale) {
         cases.push(gen_pop(rng, tier == Tier::Thorough));
     }
-    for _ in 0..(12 * scale) {
+    for _ in 0..(30 * scale) {
         cases.push(gen_wts(rng));
     }
     cases
